@@ -9,6 +9,7 @@
 #include <memory>
 #include <sstream>
 #include <typeinfo>
+#include <map>
 
 using namespace SimTK;
 
@@ -215,6 +216,76 @@ std::string applyS(State& s, const std::string& op, std::istringstream& is) {
     throw std::runtime_error("harness: unknown operation " + op);
 }
 
+
+// ---------------------------------------------------------------------------------------------------------
+// Model-independent shadow oracle (specification level, derived from the operation names and the documented
+// meaning of each call only): when was each cache entry last marked, when was each thing it depends on last
+// changed.  After every operation:
+//   validOnlyIfMarkedSince : isCacheValueRealized(e) and stage < computedBy(e)  ==>  e was marked after the last
+//        change of a variable of a stage <= dependsOn(e) and after the last change of each declared prerequisite
+//   valueChangeBumpsVersion: a discrete variable / cache entry / q,u,z whose value changed has a new value version
+//   stageAsDocumented      : a variable change leaves the system stage at min(old, documented invalidated stage - 1)
+struct EntryShadow {
+    int dep = 0, comp = 0; bool q = false, u = false, z = false;
+    std::vector<std::pair<int,int>> dvs, ces;
+    long lastMark = -1; int stageAtMark = 0;
+};
+struct Shadow {
+    std::map<std::pair<int,int>, EntryShadow> ce;
+    std::map<std::pair<int,int>, std::pair<long,std::string>> dvChange, ceChange;   // time, cause
+    long stageChange[11] = {0,0,0,0,0,0,0,0,0,0,0};
+    long lastQ = 0, lastU = 0, lastZ = 0;
+};
+struct Snap {            // values and value versions before an operation
+    bool live = false; int sys = 0; std::vector<long long> q, u, z; long long qv = 0, uv = 0, zv = 0;
+    std::map<std::pair<int,int>, std::pair<int,long long>> dv, ce;
+};
+
+int countCE(const State& s, int sx) { int n = 0; while (s.hasCacheEntry(CacheEntryKey(SubsystemIndex(sx), CacheEntryIndex(n)))) ++n; return n; }
+int countDV(const State& s, int sx) { int n = 0; while (s.hasDiscreteVar(DiscreteVarKey(SubsystemIndex(sx), DiscreteVariableIndex(n)))) ++n; return n; }
+
+Snap takeSnap(const State& s) {
+    Snap p; p.live = true; p.sys = (int)s.getSystemStage();
+    p.qv = s.getQValueVersion(); p.uv = s.getUValueVersion(); p.zv = s.getZValueVersion();
+    if (p.sys >= Stage::Model) {
+        for (int i = 0; i < s.getNQ(); ++i) p.q.push_back((long long)s.getQ()[i]);
+        for (int i = 0; i < s.getNU(); ++i) p.u.push_back((long long)s.getU()[i]);
+        for (int i = 0; i < s.getNZ(); ++i) p.z.push_back((long long)s.getZ()[i]);
+    }
+    for (int sx = 0; sx < s.getNumSubsystems(); ++sx) {
+        const int nd = countDV(s, sx), nc = countCE(s, sx);
+        for (int d = 0; d < nd; ++d)
+            p.dv[{sx, d}] = { ival(s.getDiscreteVariable(SubsystemIndex(sx), DiscreteVariableIndex(d))),
+                              s.getDiscreteVarInfo(DiscreteVarKey(SubsystemIndex(sx), DiscreteVariableIndex(d))).getValueVersion() };
+        for (int c = 0; c < nc; ++c)
+            p.ce[{sx, c}] = { ival(s.updCacheEntry(SubsystemIndex(sx), CacheEntryIndex(c))),
+                              s.getCacheEntryInfo(CacheEntryKey(SubsystemIndex(sx), CacheEntryIndex(c))).getValueVersion() };
+    }
+    return p;
+}
+
+// a copy "copies only state variables and not the cache" (State.h); cache entries whose depends-on stage was copied
+// (<= the copy's stage <= Instance) and that have no prerequisites may stay valid, all others count as never marked
+void copiedShadow(Shadow& S, const State& copy) {
+    for (auto it = S.ce.begin(); it != S.ce.end();) {
+        const int sx = it->first.first;
+        if (sx >= copy.getNumSubsystems() || it->first.second >= countCE(copy, sx)) { it = S.ce.erase(it); continue; }
+        EntryShadow& e = it->second;
+        if (e.dep > (int)copy.getSubsystemStage(SubsystemIndex(sx)) || e.q || e.u || e.z || !e.dvs.empty() || !e.ces.empty())
+            e.lastMark = -1;
+        ++it;
+    }
+}
+
+// documented stage invalidated by a variable-changing operation (State.h), 0 = not a variable change
+int docStage(const std::string& sop) {
+    if (sop == "updQ" || sop == "updQsub" || sop == "updY" || sop == "updQErrW" || sop == "updQErrWsub") return Stage::Position;
+    if (sop == "updU" || sop == "updUsub" || sop == "updUErrW" || sop == "updUErrWsub") return Stage::Velocity;
+    if (sop == "updZ" || sop == "updZsub") return Stage::Dynamics;
+    if (sop == "setTime") return Stage::Time;
+    if (sop == "updUW" || sop == "updUWsub" || sop == "updZW" || sop == "updZWsub") return Stage::Report;   // "will invalidate just Report stage"
+    return 0;
+}
 } // namespace
 
 int main(int argc, char** argv) {
@@ -226,6 +297,8 @@ int main(int argc, char** argv) {
         return 2;
     }
     World w;
+    std::vector<Shadow> sh;          // one per State object
+    long now = 0;
     std::string line;
     while (std::getline(std::cin, line)) {
         if (line.size() < 2 || line[0] != 'I' || line[1] != ' ') continue;
@@ -236,6 +309,20 @@ int main(int argc, char** argv) {
         std::string res = "ok";
         std::vector<int> touched;
         double pline = 0; bool havePline = false;
+        ++now;
+        // ---- shadow: what is known before the call
+        std::string sop0; int k0 = -1; std::vector<long long> av;      // single-State operation, its numeric arguments
+        Snap before; int dvInval = 0; int sysBefore = -1;
+        {
+            std::istringstream ps(line.substr(2)); std::string o; ps >> o;
+            if (o == "on") { ps >> k0 >> sop0; long long x; while (ps >> x) av.push_back(x); }
+            if (k0 >= 0 && k0 < (int)w.sts.size() && !w.dead[k0]) {
+                const State& st = *w.sts[k0];
+                before = takeSnap(st); sysBefore = (int)st.getSystemStage();
+                if (sop0 == "setDV" && av.size() >= 2 && av[0] < st.getNumSubsystems() && av[1] < countDV(st, (int)av[0]))
+                    dvInval = (int)st.getDiscreteVarInvalidatesStage(SubsystemIndex((int)av[0]), DiscreteVariableIndex((int)av[1]));
+            }
+        }
         try {
             if (op == "reset") {
                 int ns; is >> ns;
@@ -244,27 +331,32 @@ int main(int argc, char** argv) {
                 w.sts.emplace_back(new State()); w.dead.push_back(false);
                 w.sts[0]->setNumSubsystems(ns);
                 touched = {0};
+                sh.assign(1, Shadow());
             } else if (op == "on") {
                 int k; std::string sop; is >> k >> sop; touched = {k};
                 res = applyS(*w.sts.at(k), sop, is);
             } else if (op == "copyNew") {
                 int k; is >> k; touched = {k, (int)w.sts.size()};
                 w.sts.emplace_back(new State(*w.sts.at(k))); w.dead.push_back(false);
+                sh.push_back(sh.at(k)); copiedShadow(sh.back(), *w.sts.back());
             } else if (op == "copyAssign") {
                 int a, b; is >> a >> b; touched = {a, b};
                 *w.sts.at(b) = *w.sts.at(a);
                 w.dead[b] = w.dead[a];
+                sh.at(b) = sh.at(a); if (!w.dead[b]) copiedShadow(sh.at(b), *w.sts.at(b));
             } else if (op == "moveNew") {
                 int k; is >> k; touched = {k, (int)w.sts.size()};
                 w.sts.emplace_back(new State(std::move(*w.sts.at(k))));
                 w.dead.push_back(w.dead[k]); w.dead[k] = true;
+                sh.push_back(sh.at(k)); sh.at(k) = Shadow();
             } else if (op == "moveAssign") {
                 int a, b; is >> a >> b; touched = {a, b};
                 *w.sts.at(b) = std::move(*w.sts.at(a));
                 bool t = w.dead[a]; w.dead[a] = w.dead[b]; w.dead[b] = t;
+                std::swap(sh.at(a), sh.at(b));
             } else if (op == "clear") {
                 int k; is >> k; touched = {k};
-                w.sts.at(k)->clear(); w.dead[k] = false;
+                w.sts.at(k)->clear(); w.dead[k] = false; sh.at(k) = Shadow();
             } else if (op == "setNumSubs") {
                 int k, n; is >> k >> n; touched = {k};
                 w.sts.at(k)->setNumSubsystems(n);
@@ -292,6 +384,97 @@ int main(int argc, char** argv) {
             res = "EXC:" + excClass(e);
         }
         std::printf("O res %s\n", res.c_str());
+        // ---- shadow: update from the documented meaning of the call, then evaluate the predicates
+        if (k0 >= 0 && k0 < (int)w.sts.size() && !w.dead[k0] && before.live) {
+            const State& st = *w.sts[k0];
+            Shadow& S = sh.at(k0);
+            const bool ok = res.compare(0, 4, "EXC:") != 0;
+            auto key2 = [&](size_t i) { return std::make_pair((int)av.at(i), (int)av.at(i + 1)); };
+            int g = ok ? docStage(sop0) : 0;
+            if (ok && (sop0 == "invalAll" || sop0 == "invalCache")) g = (int)av.at(0);
+            if (ok && sop0 == "setDV") { g = dvInval; S.dvChange[key2(0)] = { now, "setDV" }; }
+            if (g > 0) S.stageChange[g] = now;
+            if (ok && (sop0 == "updQ" || sop0 == "updQsub" || sop0 == "updY")) S.lastQ = now;
+            if (ok && (sop0 == "updU" || sop0 == "updUsub" || sop0 == "updY")) S.lastU = now;
+            if (ok && (sop0 == "updZ" || sop0 == "updZsub" || sop0 == "updY")) S.lastZ = now;
+            if (ok && sop0 == "advSys" && av.at(0) == Stage::Model) S.lastQ = S.lastU = S.lastZ = now;   // pools come into existence
+            if (ok && sop0 == "setCE") S.ceChange[key2(0)] = { now, "updCacheEntry" };
+            if (ok && (sop0 == "allocCE" || sop0 == "allocCEpre" || sop0 == "allocAutoDV")) {
+                const int sx = (int)av.at(0);
+                EntryShadow e;
+                if (sop0 == "allocAutoDV") { e.dep = (int)av.at(3); e.comp = Stage::Infinity; }
+                else { e.dep = (int)av.at(1); e.comp = (int)av.at(2); }
+                if (sop0 == "allocCEpre") {
+                    e.q = av.at(3) != 0; e.u = av.at(4) != 0; e.z = av.at(5) != 0;
+                    size_t i = 6; const int nd = (int)av.at(i++);
+                    for (int j = 0; j < nd; ++j, i += 2) e.dvs.push_back(key2(i));
+                    const int nc = (int)av.at(i++);
+                    for (int j = 0; j < nc; ++j, i += 2) e.ces.push_back(key2(i));
+                }
+                const int cx = countCE(st, sx) - 1;
+                S.ce[{sx, cx}] = e; S.ceChange.erase({sx, cx});
+                if (sop0 == "allocAutoDV") S.dvChange.erase({sx, countDV(st, sx) - 1});
+                if (sop0 != "allocAutoDV") {}     // plain discrete variables need no shadow until they change
+            }
+            if (ok && sop0 == "allocDV") S.dvChange.erase({(int)av.at(0), countDV(st, (int)av.at(0)) - 1});
+            if (ok && (sop0 == "mark" || sop0 == "markDVUpd")) {
+                std::pair<int,int> k = key2(0);
+                if (sop0 == "markDVUpd") k.second = (int)st.getDiscreteVarUpdateIndex(SubsystemIndex(k.first), DiscreteVariableIndex(k.second));
+                auto it = S.ce.find(k);
+                if (it != S.ce.end()) { it->second.lastMark = now; it->second.stageAtMark = (int)st.getSubsystemStage(SubsystemIndex(k.first)); }
+            }
+            if (ok && sop0 == "unmark") { auto it = S.ce.find(key2(0)); if (it != S.ce.end()) it->second.lastMark = -1; }
+            // forget entries that no longer exist (allocation stacks popped)
+            for (auto it = S.ce.begin(); it != S.ce.end();)
+                if (it->first.first >= st.getNumSubsystems() || it->first.second >= countCE(st, it->first.first)) it = S.ce.erase(it); else ++it;
+            // values and value versions
+            Snap after = takeSnap(st);
+            int nver = 0; std::string vkey = "value_version.bumps";
+            auto flag = [&](const std::string& what) { if (!nver++) vkey = "value_version." + what + "." + sop0; };
+            for (auto& kv : before.dv) { auto it = after.dv.find(kv.first);
+                if (it != after.dv.end() && it->second.first != kv.second.first) {
+                    if (it->second.second == kv.second.second) flag("dv");
+                    if (sop0 == "autoUpdate") S.dvChange[kv.first] = { now, "autoupdate_swap" }; } }
+            for (auto& kv : before.ce) { auto it = after.ce.find(kv.first);
+                if (it != after.ce.end() && it->second.first != kv.second.first) {
+                    if (it->second.second == kv.second.second) flag("ce");
+                    if (sop0 == "autoUpdate") { S.ceChange[kv.first] = { now, "autoupdate_swap" };
+                        auto e = S.ce.find(kv.first); if (e != S.ce.end()) e->second.lastMark = -1; } } }
+            if (before.sys >= Stage::Model && after.sys >= Stage::Model) {
+                if (before.q != after.q && before.qv == after.qv) flag("q");
+                if (before.u != after.u && before.uv == after.uv) flag("u");
+                if (before.z != after.z && before.zv == after.zv) flag("z");
+            }
+            vh::P("valueChangeBumpsVersion", vkey, nver, 0.5);
+            // stage as documented
+            if (ok && docStage(sop0) > 0) {
+                const int want = std::min(sysBefore, docStage(sop0) - 1), got = (int)st.getSystemStage();
+                vh::P("stageAsDocumented", got == want ? "upd_lowers_stage.documented" : sop0 + ".invalidated_stage_differs_from_documentation",
+                      std::abs(got - want), 0.5);
+            }
+            // validity
+            int nbad = 0; std::string ckey = "cache_valid.marked_since";
+            for (auto& kv : S.ce) {
+                const EntryShadow& e = kv.second;
+                const SubsystemIndex sx(kv.first.first); const CacheEntryIndex cx(kv.first.second);
+                const int cur = (int)st.getSubsystemStage(sx);
+                if (!st.isCacheValueRealized(sx, cx) || cur >= e.comp) continue;
+                long last = 0; std::string cause = "stage";
+                for (int gg = 1; gg <= e.dep && gg <= 10; ++gg) last = std::max(last, S.stageChange[gg]);
+                auto upd = [&](long t, const std::string& c) { if (t > last) { last = t; cause = c; } };
+                if (e.q) upd(S.lastQ, "q"); if (e.u) upd(S.lastU, "u"); if (e.z) upd(S.lastZ, "z");
+                for (auto& dk : e.dvs) { auto it = S.dvChange.find(dk); if (it != S.dvChange.end()) upd(it->second.first, "dv_" + it->second.second); }
+                for (auto& ck : e.ces) { auto it = S.ceChange.find(ck); if (it != S.ceChange.end()) upd(it->second.first, "ce_" + it->second.second); }
+                if (e.lastMark > last) continue;
+                if (!nbad++) {
+                    if (e.lastMark < 0) ckey = "cache_valid.never_marked_or_unmarked";
+                    else if (cause == "stage") ckey = e.stageAtMark < e.dep ? "cache_valid.marked_one_stage_early_then_variable_changed"
+                                                                             : "cache_valid.stage_variable_changed_after_mark";
+                    else ckey = "cache_valid.prerequisite_" + cause + "_changed_after_mark";
+                }
+            }
+            vh::P("validOnlyIfMarkedSince", ckey, nbad, 0.5);
+        }
         if (havePline)   // property predicate: a cache entry reads valid only if it was marked valid since ...
             vh::P("neverMarkedInCopy_notValid", "copy.stale_stamp.cache_valid", pline, 0.5);
         for (size_t k = 0; k < w.sts.size(); ++k) {
